@@ -56,9 +56,10 @@
 //
 // DHPParse (dhp.go) and BDHPParse (bdhp.go; `lcs` opaque) are topics of the same kind; their
 // `doubleHashDictionary.processSegment` uses local pointer aliases `h1, h2 := &f.h1, &f.h2`, which are
-// eliminated at source level (code_ptralias.go) before the translation.  bup.go is NOT a topic yet:
-// `bucketHash.bucket` returns a sub-slice and the bucket scan is a range loop with `continue` and
-// operations that may panic (notes/parse-translate.md §6).
+// eliminated at source level (code_ptralias.go) before the translation.  bup.go (topic BUPParse) and
+// parser_buffer.go ReadFrom (topic PBufReadFrom) are topics of the seventh part (code_lend.go: lent windows,
+// view methods inlined at range statements, block-scoped read-only views, `if A && B` with a B that may
+// panic, `&P` arguments); they are registered by the init function below, after the topics of this file.
 //
 // Nothing here is keyed on a function name; the per-topic data are topicsParse and ptrNonNilTopics.
 package main
@@ -81,7 +82,7 @@ var topicsParse = []topic{
 }
 
 func init() {
-	for _, t := range topicsParse {
+	for _, t := range append(append([]topic{}, topicsParse...), topicsLend...) { // code_lend.go: its topics come last
 		topics5 = append(topics5, t)
 		part3Topics[t.name] = true
 		part4Topics[t.name] = true
@@ -90,7 +91,7 @@ func init() {
 }
 
 // ptrNonNilTopics: the topics that ASSUME their pointer parameters are not nil (see the header).
-var ptrNonNilTopics = map[string]bool{"HPParse": true, "BHPParse": true, "DHPParse": true, "BDHPParse": true}
+var ptrNonNilTopics = map[string]bool{"HPParse": true, "BHPParse": true, "DHPParse": true, "BDHPParse": true, "BUPParse": true}
 
 // ptrNilCompare: `p == nil` / `p != nil` (either order) where p is a parameter (or the receiver) of
 // pointer type of the function being translated.  The value model has no nil pointers: outside a
@@ -249,6 +250,7 @@ type sliceAlias struct {
 	sRoot string
 	sPath []string
 	pos   token.Pos
+	end   token.Pos // code_lend.go: valid for a block-scoped view — the alias is dead from here on
 }
 
 func pathOverlap(a, b []string) bool {
@@ -265,6 +267,16 @@ func pathOverlap(a, b []string) bool {
 // reference.  Everything that is not a (re-sliced) variable or field path — make, append, nil,
 // composite literals, calls — yields a fresh value (append is `x = append(x, …)` only).
 func (c *codegen) noteSliceAlias(v *varInfo, p []string, t gtype, rhs ast.Expr, at ast.Node) {
+	c.noteSliceAliasScoped(v, p, t, rhs, at, nil)
+}
+
+// noteViewAlias (code_lend.go): the alias of a range-only variable lives from its define to the end
+// of the enclosing block.
+func (c *codegen) noteViewAlias(v *varInfo, t gtype, rhs ast.Expr, at ast.Node, vi *viewInfo) {
+	c.noteSliceAliasScoped(v, nil, t, rhs, at, vi)
+}
+
+func (c *codegen) noteSliceAliasScoped(v *varInfo, p []string, t gtype, rhs ast.Expr, at ast.Node, vi *viewInfo) {
 	if !c.phase5 || (t.kind != kBytes && t.kind != kGSlice) {
 		return
 	}
@@ -296,16 +308,22 @@ func (c *codegen) noteSliceAlias(v *varInfo, p []string, t gtype, rhs ast.Expr, 
 		return
 	}
 	pos := at.Pos()
-	if len(c.cur.loops) > 0 && c.cur.loops[0].pos.IsValid() && c.cur.loops[0].pos < pos {
+	var end token.Pos
+	if vi != nil {
+		end = vi.end // block-scoped: from the define to the end of the declaring block, whatever loops enclose it
+	} else if len(c.cur.loops) > 0 && c.cur.loops[0].pos.IsValid() && c.cur.loops[0].pos < pos {
 		pos = c.cur.loops[0].pos
 	}
 	for _, a := range c.cur.sig.aliases {
+		if a.end != end {
+			continue
+		}
 		if a.dRoot == v.lean && a.sRoot == sv.lean && len(a.dPath) == len(p) && pathOverlap(a.dPath, p) &&
 			len(a.sPath) == len(sp) && pathOverlap(a.sPath, sp) && a.pos <= pos {
 			return
 		}
 	}
-	c.cur.sig.aliases = append(c.cur.sig.aliases, sliceAlias{v.lean, append([]string{}, p...), sv.lean, append([]string{}, sp...), pos})
+	c.cur.sig.aliases = append(c.cur.sig.aliases, sliceAlias{v.lean, append([]string{}, p...), sv.lean, append([]string{}, sp...), pos, end})
 }
 
 // checkAliasWrite: an operation that writes elements of (v, p) — element assignment, copy into,
@@ -317,7 +335,7 @@ func (c *codegen) checkAliasWrite(v *varInfo, p []string, at ast.Node, what stri
 		return
 	}
 	for _, a := range c.cur.sig.aliases {
-		if at.Pos() < a.pos {
+		if at.Pos() < a.pos || (a.end.IsValid() && at.Pos() >= a.end) {
 			continue
 		}
 		if (v.lean == a.dRoot && pathOverlap(p, a.dPath)) || (v.lean == a.sRoot && pathOverlap(p, a.sPath)) {
